@@ -32,11 +32,16 @@ def plan(tier, seed):
     return [{'n': 90 if q else 1200, 'k': 3 if q else 12} for _ in range(16)]
 
 
+def _unattributed(c):
+    return [f'the signal-memory sanitizer could not attribute {c[k]} accesses to an operation (counter {k}): the kernels are not entered through the hooked names'
+            for k in ('san/unattributed', 'lsan/unattributed') if c.get(k, 0)]
+
+
 def conclude(agg):
     c = agg['counters']
     return [f'monitor counter {k} is zero' for k in ('san/reads', 'san/cells', 'permutations_run', 'thread_orders_run', 'levels_wide', 'cases/reuse_sharing',
                                                      'logic_permutations', 'level_structure_checks', 'lsan/operand_checks', 'rescheduled_after_rewiring')
-            if c.get(k, 0) == 0]
+            if c.get(k, 0) == 0] + _unattributed(c)
 
 
 def permute_levels(sim, nrng):
